@@ -282,9 +282,12 @@ StartOp ==
   /\ LET hOK == hp # 0 /\ hp \in dH
          tOK == tp # 0 /\ tp \in dH
          ws  == (IF hp # 0 /\ ~hOK THEN <<WDelHeadPtr>> ELSE <<>>) \o (IF tp # 0 /\ ~tOK THEN <<WDelTailPtr>> ELSE <<>>)
-         nh  == IF hOK THEN hp ELSE 0
+         \* one pointer survived, the other one was dropped: walk from the surviving end (repair of D24)
+         S0  == [St EXCEPT !.pend = {}, !.head = IF hOK THEN hp ELSE 0, !.tail = IF tOK THEN tp ELSE 0]
+         nh  == IF hOK THEN hp ELSE IF tOK THEN UpFrom([S0 EXCEPT !.head = tp], tp) ELSE 0
+         nt  == IF tOK THEN tp ELSE IF hOK THEN DownFrom([S0 EXCEPT !.tail = hp], hp) ELSE 0
      IN /\ wq' = ws
-        /\ fin' = [mem |-> [St EXCEPT !.pend = {}, !.head = nh, !.tail = IF tOK THEN tp ELSE 0, !.hs = nh], set |-> TRUE, up |-> TRUE]
+        /\ fin' = [mem |-> [St EXCEPT !.pend = {}, !.head = nh, !.tail = nt, !.hs = nh], set |-> TRUE, up |-> TRUE]
         /\ last' = [NoLast EXCEPT !.op = "start", !.ws = ws]
   /\ UNCHANGED <<dH, dI, hp, tp, pend, head, tail, hs, up, nops, hist, live, deleted, dirty>>
 
